@@ -1,19 +1,19 @@
 CONSTANTS
-  Peers = {1, 2, 3}
-  Hashes = {1, 2}
+  Peers = {1, 2, 3, 4}
+  Hashes = {1}
   D = 2
   MaxPar = 3
   MaxPend = 3
-  Horizon = 5
+  Horizon = 2
   HeadCheck = TRUE
-  MaxHold = 0
+  MaxHold = 3
   ExportOn = TRUE
-  SampleMod = 50
-  MaxAnn = 6
+  SampleMod = 8
+  MaxAnn = 5
 INIT MInit
 NEXT MNext
 VIEW view
 INVARIANTS TypeOK
 PROPERTIES StepProps
-ACTION_CONSTRAINT Export
+ACTION_CONSTRAINT ExportCap
 CHECK_DEADLOCK FALSE
